@@ -97,7 +97,7 @@ func TestVerif_C05_Scripts(t *testing.T) {
 	defer tr.Close()
 	tr.Emit(corpus.FoldEvent())
 	r := &c05Run{tr: tr, counts: map[string]int{}}
-	rounds := verifkit.EnvInt("C05_ROUNDS", verifkit.Pick(1, 3))
+	rounds := verifkit.EnvInt("C05_ROUNDS", 1)
 	seed := int(verifkit.Seed())
 	for i, raw := range scripts {
 		var toks []rewrite.Tok
